@@ -1745,6 +1745,7 @@ class FileBuilder:
                 copy.deepcopy(operation.kwargs),
                 'the build_file* call for {:s}'.format(filename))
 
+            self._simple_operation_executor.forget_file_hash(filename)
             operation.file_comparison_result = (
                 self._noneable_file_comparison_result(
                     filename, operation.file_comparison))
@@ -1796,12 +1797,19 @@ class FileBuilder:
             if self._try_to_reuse_cached_file():
                 return operation.return_value
 
-            if (os.path.isfile(filename) and
-                    self._backups.back_up_and_remove(filename)):
-                logger.info(
-                    'Moved {:s} to a temporary directory, in preparation for '
-                    'rebuilding the file'.format(filename))
+            # Reserve the file before moving the old file out of the way. If
+            # another thread is building the same file, this raises, and we
+            # must not touch that thread's output file.
             self._new_cache.start_building_file(filename)
+            try:
+                if (os.path.isfile(filename) and
+                        self._backups.back_up_and_remove(filename)):
+                    logger.info(
+                        'Moved {:s} to a temporary directory, in preparation '
+                        'for rebuilding the file'.format(filename))
+            except Exception:
+                self._new_cache.cancel_building_file(filename)
+                raise
         except Exception:
             self._build_dirs.error_building_file(filename)
             raise
